@@ -30,6 +30,11 @@ type Spec struct {
 	// 64), handed to the caller's function, and then re-weighted in place from Seq: the table a caller
 	// holds after changing their mind. What it means is given by Seq alone.
 	Twice bool `json:"twice,omitempty"`
+	// Scale, when above 1: the usage of a whole genome rather than of one gene - the table is re-weighted from the
+	// coding sequence repeated Scale times (whole codons only, so every in-frame count is exactly Scale times what
+	// one copy gives). Up to 1.5 million letters this is done literally; beyond that the counts of one copy are
+	// multiplied in place, which is the same table. A default table (all weights 1) gets all weights Scale.
+	Scale int `json:"scale,omitempty"`
 }
 
 // Build returns a detached table for the spec.
@@ -72,7 +77,17 @@ func (s Spec) BuildWith(between func(codon.Table)) codon.Table {
 				between(t)
 			}
 		}
+		if s.Scale > 1 && len(seq)%3 == 0 && len(seq)*s.Scale <= 1500000 {
+			return t.OptimizeTable(strings.Repeat(seq, s.Scale))
+		}
 		t = t.OptimizeTable(seq)
+	}
+	if s.Scale > 1 {
+		for _, aa := range t.AminoAcids {
+			for i := range aa.Codons {
+				aa.Codons[i].Weight *= s.Scale
+			}
+		}
 	}
 	return t
 }
@@ -99,10 +114,14 @@ func otherComposition(seq string) string {
 
 func (s Spec) String() string {
 	if !s.Reweight {
-		if s.Order != 0 {
-			return fmt.Sprintf("default table %d (amino acids and codons listed in another order)", s.ID)
+		sc := ""
+		if s.Scale > 1 {
+			sc = fmt.Sprintf(", every weight %d", s.Scale)
 		}
-		return fmt.Sprintf("default table %d", s.ID)
+		if s.Order != 0 {
+			return fmt.Sprintf("default table %d (amino acids and codons listed in another order)%s", s.ID, sc)
+		}
+		return fmt.Sprintf("default table %d%s", s.ID, sc)
 	}
 	q := s.Seq.String()
 	if len(q) > 60 {
@@ -114,6 +133,9 @@ func (s Spec) String() string {
 	}
 	if s.Twice {
 		extra += ", after an earlier re-weighting of the same value"
+	}
+	if s.Scale > 1 {
+		extra += fmt.Sprintf(", repeated %d times", s.Scale)
 	}
 	return fmt.Sprintf("table %d re-weighted from %q%s", s.ID, q, extra)
 }
@@ -218,6 +240,13 @@ func DrawSpecFor(t *rapid.T, name string, cover bool, maxLen int, id int) Spec {
 		}
 		s.Twice = rapid.IntRange(0, 3).Draw(t, name+"_twice") == 0
 	}
+	// genome-scale usage: one table in five; the total stays below 10^8 codons (2.5 human genomes)
+	if k := rapid.IntRange(0, 9).Draw(t, name+"_genome_scale"); k < 2 {
+		s.Scale = rapid.SampledFrom([]int{3, 40, 700, 20000, 65536}).Draw(t, name+"_scale")
+		if n := len(s.Seq.String()) / 3; n > 0 && s.Scale > 100000000/n {
+			s.Scale = max(2, 100000000/n)
+		}
+	}
 	return s
 }
 
@@ -239,4 +268,51 @@ func DrawCoding(t *rapid.T, name string, maxLen int) vk.SeqSpec {
 		sp.Alpha = "ACGT"
 	}
 	return sp
+}
+
+// DrawGene draws a sequence shaped like a complete gene of the given genetic code: one of the code's start codons,
+// up to maxCodons further codons (without a stop codon among them three times out of four), and one of the code's
+// stop codons at the end; whole codons only. One in three is all lower case, one in six mixed.
+func DrawGene(t *rapid.T, name string, id int, maxCodons int) string {
+	g, ok := ref.GeneticCodeByID(id)
+	if !ok || len(g.Starts) == 0 || len(g.Stops) == 0 {
+		g, _ = ref.GeneticCodeByID(1)
+	}
+	stop := map[string]bool{}
+	for _, s := range g.Stops {
+		stop[s] = true
+	}
+	var sense []string
+	for _, c := range ref.AllCodons() {
+		if !stop[c] {
+			sense = append(sense, c)
+		}
+	}
+	pool := sense
+	if rapid.IntRange(0, 3).Draw(t, name+"_internal_stops") == 0 {
+		pool = ref.AllCodons()
+	}
+	var b strings.Builder
+	b.WriteString(rapid.SampledFrom(g.Starts).Draw(t, name+"_start"))
+	n := vk.DrawSize(t, name+"_codons", 0, maxCodons)
+	fill := vk.Fill(rapid.Uint64().Draw(t, name+"_body"), n, "0123456789abcdefghijklmnopqrstuvwxyzABCDEFGHIJKLMNOPQRSTUVWXYZ+/")
+	for i := 0; i < n; i++ {
+		k := strings.IndexByte("0123456789abcdefghijklmnopqrstuvwxyzABCDEFGHIJKLMNOPQRSTUVWXYZ+/", fill[i])
+		b.WriteString(pool[k%len(pool)])
+	}
+	b.WriteString(rapid.SampledFrom(g.Stops).Draw(t, name+"_stop"))
+	s := b.String()
+	switch rapid.IntRange(0, 5).Draw(t, name+"_case") {
+	case 0, 1:
+		return strings.ToLower(s)
+	case 2:
+		x := []byte(s)
+		for i := range x {
+			if (i*7+i/5)%3 == 0 {
+				x[i] |= 0x20
+			}
+		}
+		return string(x)
+	}
+	return s
 }
